@@ -363,6 +363,10 @@ def _analyze_command(
             decisions.append(Decision("ask", "ambiguous $(( expansion"))
         if _substitutions_lost(word_value, word):
             decisions.append(Decision("ask", "substitution not analysed"))
+        if not parts and _names_variable(base, words, position, base_idx):
+            decisions.extend(
+                _analyze_string_cmdsubs(word_value, config, cwd, remote=remote)
+            )
         # Check if this is a pure cmdsub (entire word is just a cmdsub)
         is_pure_cmdsub = (
             len(parts) == 1
@@ -437,6 +441,20 @@ def _analyze_command(
     decisions.append(cmd_decision)
 
     return _combine(decisions)
+
+
+def _names_variable(base: str, words: list[str], position: int, base_idx: int) -> bool:
+    """True if bash treats this argument of a builtin as a variable name.
+
+    An array subscript in such a name is evaluated as arithmetic, so the
+    substitutions inside it run even when the word is quoted:
+    test -v 'a[$(cmd)]', read 'a[$(cmd)]', printf -v 'a[$(cmd)]' x.
+    """
+    if position <= base_idx:
+        return False
+    if base in ("[", "test", "read"):
+        return True
+    return base == "printf" and words[position - 1] == "-v"
 
 
 def _analyze_redirects(
